@@ -12,7 +12,7 @@ fn nontrivial(v: &Verdict) -> bool {
 }
 
 pub fn exec(line: &str, rec: &mut Recorder) {
-    if line.starts_with("msg ") || line.starts_with("rt ") || line.starts_with("asm ") || line.starts_with("resp ") || line.starts_with("tsnew ") {
+    if line.starts_with("msg ") || line.starts_with("rt ") || line.starts_with("asm ") || line.starts_with("resp ") || line.starts_with("tsnew ") || line.starts_with("undec ") {
         crate::props::msgemit::exec(line, rec, |v| v.n_err == 0 && v.len > 40)
     } else {
         encscript::exec(line, rec, nontrivial)
